@@ -26,7 +26,9 @@ class Vocabulary:
     field_methods: {(field name, member name regex) -> effect}   e.g. ("mIdList", "insert")
     field_assign: {field name -> callable(rhs_node_text) -> effect}"""
 
-    def __init__(self, methods=(), field_methods=(), field_assign=None, opaque=()):
+    def __init__(self, methods=(), field_methods=(), field_assign=None, opaque=(), field_any=None, functions=None):
+        self.field_any = field_any     # callable(field name, member name or "=") -> effect or None, for every data member
+        self.functions = functions     # callable(function name) -> effect or None, for free/extern functions (e.g. libxml2)
         self.methods = [(re.compile(p), e) for p, e in methods]
         self.field_methods = [(f, re.compile(p), e) for f, p, e in field_methods]
         self.field_assign = field_assign or {}
@@ -88,6 +90,8 @@ class Slicer:
             self.effects_of_expr(inner[1], out)
             if f in self.v.field_assign:
                 out.append(("E", self.v.field_assign[f](node_text(inner[1]))))
+            elif f is not None and self.v.field_any and self.v.field_any(f, "=") and inner[0].get("kind") != "ParenExpr":
+                out.append(("E", self.v.field_any(f, "=")))
             else:
                 self.effects_of_expr(inner[0], out)
             return
@@ -99,6 +103,9 @@ class Slicer:
                 self.effects_of_expr(inner[2], out)
                 if f in self.v.field_assign:
                     out.append(("E", self.v.field_assign[f](node_text(inner[2]))))
+                    return
+                if f is not None and self.v.field_any and self.v.field_any(f, "="):
+                    out.append(("E", self.v.field_any(f, "=")))
                     return
                 self.effects_of_expr(inner[1], out)
                 return
@@ -124,6 +131,11 @@ class Slicer:
                     if f == fld and rx.fullmatch(name):
                         out.append(("E", eff))
                         return
+                if f is not None and self.v.field_any:
+                    e = self.v.field_any(f, name)
+                    if e:
+                        out.append(("E", e))
+                        return
             if did in self.by_id:
                 cn = self.by_id[did]
                 if cn in self.v.opaque:
@@ -131,6 +143,11 @@ class Slicer:
                 else:
                     out.append(("S", cn))
                 return
+            if self.v.functions and callee.get("kind") == "DeclRefExpr":
+                e = self.v.functions(name, node_text(n))
+                if e:
+                    out.append(("E", e))
+                    return
             for rx, eff in self.v.methods:
                 if rx.fullmatch(name):
                     out.append(("E", eff(node_text(n)) if callable(eff) else eff))
